@@ -169,6 +169,12 @@ func orderInsensitive(info *types.Info, f *ScopeFunc, body *ast.BlockStmt, loop 
 						}
 						bad = "indexed store " + core.ExprStr(l)
 					case *ast.Ident, *ast.SelectorExpr:
+						// filling in a field of a value that lives for one iteration only
+						if _, isSel := l.(*ast.SelectorExpr); isSel {
+							if root := rootIdentOf(l); root != nil && local[info.Uses[root]] {
+								continue
+							}
+						}
 						if len(x.Rhs) == len(x.Lhs) {
 							if c, ok := core.Unparen(x.Rhs[i]).(*ast.CallExpr); ok && core.CalleeName(info, c) == "builtin.append" && core.ExprStr(c.Args[0]) == core.ExprStr(l) {
 								appended = append(appended, l)
